@@ -430,9 +430,7 @@ class NPShim:
             return np.std(a, *args, **k)
         ddof = k.get('ddof', 0)
         v = self.var(a_, ddof=ddof)
-        s = Ctx.cur.fresh('std')
-        Ctx.cur.assume(s.t >= 0, s.t * s.t == tz(v))
-        return s
+        return _root_of(tz(v), 'std')
 
     def var(self, a, ddof=0, **k):
         a_ = np.asarray(a)
@@ -457,10 +455,8 @@ class NPShim:
 
     def sqrt(self, a):
         if isinstance(a, SymReal):
-            s = Ctx.cur.fresh('sqrt')
-            Ctx.cur.assume(s.t >= 0, s.t * s.t == a.t)
             Ctx.cur.defined.append(('sqrt', a.t >= 0))
-            return s
+            return _root_of(a.t, 'sqrt')
         if has_sym(a):
             return _elementwise(lambda x: self.sqrt(x) if isinstance(x, SymReal) else np.sqrt(x), a)
         return np.sqrt(a)
@@ -519,6 +515,19 @@ class NPShim:
             # symbolic tables stand for float tables
             return b in (np.floating,)
         return np.issubdtype(a, b)
+
+
+def _root_of(term, prefix):
+    """the non-negative square root of `term` as a fresh symbol r (r >= 0, r*r == term); the same term
+    always gets the same symbol on a path, so repeated evaluations are syntactically equal"""
+    ctx = Ctx.cur
+    memo = ctx.notes.setdefault('root_memo', {})
+    key = z3.simplify(term).sexpr()
+    if key not in memo:
+        r = ctx.fresh(prefix)
+        ctx.assume(r.t >= 0, r.t * r.t == term)
+        memo[key] = r
+    return memo[key]
 
 
 def _bor(x, y):
